@@ -196,7 +196,9 @@ def _parse_directive_options(
     :returns: (content, options, validation_errors)
     """
     options_block: None | str = None
-    if content.startswith("---"):
+    if re.match(r"-{3,}[ \t\r]*(?:\n|$)", content):
+        # like the closing delimiter, the opening one is a whole line:
+        # ``--- a/file`` (a diff) or ``---|---`` is body text
         line = None if line is None else line + 1
         # keep every line terminated, so that no (blank) line is lost when re-splitting
         content = "".join(ln + "\n" for ln in split_lines(content)[1:])
